@@ -100,7 +100,7 @@ def check_prog(ctx, r, prog, n):
         label = rng.choice([None, "", "lbl", "with \"quote\"", " vault", "vault\n", " ", "\tx ", "Üpper Case", "a" * 200])
         admin = rng.choice([None, "adm1", "", " adm", "ADM1", "adm\n"])
         funds = rng.choice([None, draw_funds(rng)])
-        salt = rng.choice([None, None, base64.b64encode(bytes(rng.randrange(256) for _ in range(rng.choice([0, 1, 8, 64])))).decode()])
+        salt = rng.choice([None, None, base64.b64encode(bytes(rng.randrange(256) for _ in range(rng.choice([0, 1, 8, 64, 65, 100, 300])))).decode()])
         code_id = rng.choice([0, 1, 2**64 - 1, rng.randrange(10**6)])
         o = r.call({"prog": pn, "op": "inst_builder", "args": texts, "code_id": code_id, "label": label, "admin": admin, "funds": funds, "salt": salt})
         ctx.ev()
